@@ -1,6 +1,7 @@
 import Goflow.Gen.History
 import Goflow.Gen.C09
 import Goflow.Gen.C08
+import Goflow.Gen.C14
 /-! C12 generator: prefix histories of every protocol (valid, malformed, failing half-way in the
     producer) on one producer and message pool, with the pool poisoned by fully populated messages
     before each probe. The model has no pool, so any leak shows as a correspondence failure; the
@@ -19,9 +20,27 @@ def failingDatagram (version dom : Nat) : G Bytes := do
   let m0 : Msg := ⟨version, 0, 1000, 1700000000, 7, dom, [.template [(400, good), (401, bad)] 0, .data 400 good r1 0, .data 401 bad r2 0]⟩
   pure (encode { m0 with count := 6 })
 
+/-- flows with custom (mapped) fields printed as JSON / text, followed on the same producer and pool by
+    flows that carry none: nothing of the earlier flows may show up in any output form of the later ones -/
+def genFormatted (i : Nat) : G (List String) := do
+  let round ← C14.genElemRound i
+  let mut out := round
+  if round.any (·.startsWith "pktf ") then
+    for j in [0:3] do
+      let v5 ← C08.genV5Case (i + 2000 + j)
+      let pk := (v5.filter (·.startsWith "pkt nf ")).map fun l => "pktf nf " ++ (l.drop 7).toString
+      out := out ++ pk.flatMap fun l => [l, "expect @res ok", "expect @fmt", "expect @agree"]
+      if j = 1 then
+        -- the custom-field datagram once more (its templates are known by now), then plain flows again
+        out := out ++ (round.filter (·.startsWith "pktf ")).flatMap fun l => [l, "expect @fmt"]
+  pure out
+
 def gen (n : Nat) : G (List String) := do
   let mut out : List String := []
   for i in [0:n] do
+    if i % 4 = 3 then
+      out := out ++ (← genFormatted i)
+      continue
     let pipe := if i % 2 = 0 then "nf" else "auto"
     out := out ++ header
     let len ← range 3 25
